@@ -56,6 +56,13 @@ TEXT = {
              "update histories (restarts, replays, old-epoch stragglers, notices, removals, originations) on a real Netceptor.",
         note=BASE_NOTE + "Seen-table expiry and the concurrency of per-connection goroutines are modelled as sequential steps under the "
              "lock facts; notices bypass the epoch test by design (at-most-once per UpdateID only): partial."),
+    "C09": dict(
+        text="Theorems accept_iff, any_single_failure_refuses, pin_rule / unsupported_pin_refuses, receptor_name_required, "
+             "client_bound_to_source (with the excluded colon point as a witness theorem) over the decision model of "
+             "ReceptorVerifyFunc / the listener's client-name binding. Tie: regenerated facts (pin lengths, order and error exits of the "
+             "verification steps, role usages, name comparison, GetClientTLSConfig per mode, listener expression) + differential runs of "
+             "the real ReceptorVerifyFunc on certificates constructed for the whole product in the quantifier.",
+        note=BASE_NOTE + "x509/TLS internals are oracles (ground truth by construction)."),
     "C10": dict(
         text="Theorems forward_bound (at most h relays for every table assignment incl. loops), reach_iff, expiry_reporter, "
              "traceroute_path, notice_terminates over the executable model of handleMessageData/forwardMessage; tie: regenerated facts "
